@@ -3,7 +3,7 @@
   a function of the structure of the document (`fragOut`, `opOut`, `nodeOut` per visited selection),
   and the exact conditions under which each message kind is reported at each callback.
 -/
-import AGV.Lemmas.ValidateWalk
+import AGV.Lemmas.ValidateSpecNodes
 namespace AGV.Lemmas.ValidateRules
 open AGV.Core AGV.Model.Validate AGV.Lemmas.ValidateWalk
 
